@@ -104,7 +104,7 @@ func (r *Run) Classify(path *Path, i int) GuardClass {
 		if ev.Val {
 			out = "yes"
 		}
-		return GuardClass{Subject: "case:" + p.Canon(fn, ev.Tag) + "==" + p.Canon(fn, ev.Cond), Outcome: out}
+		return GuardClass{Subject: "case:" + p.Canon(ev.Fn, ev.Tag) + "==" + p.Canon(ev.Fn, ev.Cond), Outcome: out}
 	case GUnknown:
 		return GuardClass{Subject: "unknown"}
 	}
